@@ -47,7 +47,11 @@ CLAIM = {
             'seeded objects built through the real constructors, update() histories and files; independent oracles '
             '(the classes\' ==, a first-principles deep comparison, pickle, files, names) search for failing inputs.',
     'note': 'Trusted: Lean kernel; CPython json/pickle/repr(float)/str.format/os.path.splitext; numpy '
-            'array<->tolist, dtype names and np.array(data, dtype).reshape; the correspondence harness. Partial: the '
+            'array<->tolist, dtype names and np.array(data, dtype).reshape; the correspondence harness. The value '
+            'of an array, in the model and in every comparison, is its logical content (dtype, shape, index -> element, '
+            'i.e. tolist()), independent of its memory layout: every generated array of ndim >= 2 is also exercised '
+            'as Fortran-ordered, transposed, strided, reversed and broadcast view and must load equal to its '
+            'C-contiguous twin. Partial: the '
             'binary64 arithmetic of update() is not modelled (the round-trip theorems hold for every field state, hence '
             'for every history; the CHOICE machine is modelled exactly); float renderings in file names are a '
             'parameter of the model (injectivity proved for int/str/bool fields, conditional on injectivity of '
@@ -574,6 +578,42 @@ def text_tree(text):
     return tok(canon(json.loads(text)), True)
 
 
+def strip_ps(ps):
+    return dict(ps, params=[[n, strip_layout(v)] for n, v in ps['params']])
+
+
+def strip_rs(rs):
+    return dict(rs, history=[[strip_layout(v), (None if t is None else strip_layout(t))] for v, t in rs['history']])
+
+
+def strip_ss(ss):
+    return dict(ss, params=strip_ps(ss['params']), results=[[strip_rs(r) for r in g] for g in ss['results']])
+
+
+def has_layout(spec):
+    if spec[0] in ('list', 'set'):
+        return any(has_layout(x) for x in spec[1])
+    return spec[0] == 'array' and len(spec) > 4 and spec[4] != 'C'
+
+
+def variants_ps(ps):
+    """the parameter set with its >= 2-d arrays in each memory layout (kept as given: add(), no copy)"""
+    out = []
+    for i, lay in enumerate(LAYOUTS[1:]):
+        changed = False
+        params = []
+        for n, v in ps['params']:
+            vs = layout_variants(v)
+            if vs:
+                changed = True
+                params.append([n, vs[i]])
+            else:
+                params.append([n, v])
+        if changed:
+            out.append(dict(ps, params=params, via_add=True))
+    return out
+
+
 def _shrink_value(spec, fails):
     """smallest failing sub-spec (children first)"""
     if spec[0] in ('list', 'set'):
@@ -604,6 +644,17 @@ def _value_failure(spec):
         return 'second save/load changed the value: %r -> %r' % (w, w2)
     if text_tree(text) != text_tree(text2):
         return 'second to_json text differs: %s -> %s' % (text[:100], text2[:100])
+    if has_layout(spec):
+        # same values in the default (C-contiguous) layout: same JSON, same loaded object
+        t = build(strip_layout(spec))
+        text_t = json.dumps(t, cls=S.NumpyOrSetEncoder)
+        if text_tree(text_t) != text_tree(text):
+            return 'JSON differs from the JSON of the C-contiguous array with the same values'
+        if tok(json.loads(text_t, object_hook=S.json_numpy_or_set_obj_hook), True) != tok(w, True):
+            return 'loaded value differs from the loaded C-contiguous twin'
+    u = pickle.loads(pickle.dumps(v, protocol=2))
+    if tok(u, True) != tok(v, True):
+        return 'pickle changed the value: %r -> %r' % (v, u)
     return None
 
 
@@ -675,6 +726,15 @@ def _params_failure(ps):
     q4 = pickle.loads(pickle.dumps(p, protocol=2))
     if params_state(q4) != params_state(p) or (eq_usable(p) and not (q4 == p)):
         return 'pickle round trip changed the object'
+    if any(has_layout(v) for _, v in ps['params']):
+        t = build_params(strip_ps(ps))
+        if params_state(t) != params_state(p):
+            return 'harness: twin differs'          # cannot happen: same logical values
+        qt = P.from_json(t.to_json())
+        if params_state(qt) != params_state(q):
+            return 'loaded object differs from the loaded twin whose arrays are C-contiguous'
+        if text_tree(t.to_json()) != text_tree(p.to_json()):
+            return 'to_json() differs from the twin whose arrays are C-contiguous'
     return None
 
 
@@ -692,7 +752,8 @@ def params_class(ps):
             return 'params:reserved-key'
     base = dict(ps)
     for n, v in ps['params']:
-        one = {'params': [[n, v]], 'unpack': [n] if n in ps.get('unpack', []) else [], 'child': ps.get('child')}
+        one = {'params': [[n, v]], 'unpack': [n] if n in ps.get('unpack', []) else [], 'child': ps.get('child'),
+               'via_add': ps.get('via_add')}
         try:
             bad = _params_failure(one) is not None
         except Exception:
@@ -747,6 +808,10 @@ def _result_failure(rs):
     q4 = pickle.loads(pickle.dumps(r, protocol=2))
     if result_state(q4) != result_state(r) or (eq_usable(r) and not (q4 == r)):
         return 'pickle round trip changed the result'
+    if any(has_layout(v) for v, _ in rs['history']):
+        qt = R.from_json(build_result(strip_rs(rs)).to_json())
+        if result_state(qt) != result_state(q):
+            return 'loaded result differs from the loaded twin whose arrays are C-contiguous'
     return None
 
 
@@ -813,6 +878,12 @@ def _sim_failure(ss):
         return 'second save/load changed the object'
     if text_tree(s.to_json()) != text_tree(q.to_json()):
         return 'to_json() of the loaded object differs from the original text'
+    layouts = any(has_layout(v) for _, v in ss['params']['params']) or \
+        any(has_layout(v) for g in ss['results'] for r in g for v, _ in r['history'])
+    if layouts:
+        qt = SR.from_json(build_sim(strip_ss(ss)).to_json())
+        if sim_state(qt) != sim_state(q):
+            return 'loaded object differs from the loaded twin whose arrays are C-contiguous'
     # files
     tpl = ss.get('template')
     if tpl is not None:
@@ -838,6 +909,16 @@ def _sim_failure(ss):
             d = sim_same(s, q)
             if d:
                 return 'file%s: %s' % (ext, d)
+            if layouts:
+                t = build_sim(strip_ss(ss))
+                actual_t = t.save_to_file(name)
+                qt = SR.load_from_file(actual_t)
+                try:
+                    os.remove(actual_t)
+                except OSError:
+                    pass
+                if sim_state(qt) != sim_state(q):
+                    return 'file%s: loaded object differs from the loaded twin whose arrays are C-contiguous' % ext
             if os.path.splitext(actual)[-1] != (ext or '.pickle'):
                 return 'file%s: saved as %r' % (ext, actual)
     return None
@@ -999,6 +1080,19 @@ ORACLES = {
     'SimulationResults.filename': o_filename,
     'SimulationResults.filename.set': o_filename_set,
 }
+
+
+def run_value_oracles(ctx, spec, nontrivial=True):
+    """the value and, for arrays of ndim >= 2, the same value in every memory layout"""
+    run_oracle(ctx, 'json.roundtrip', {'v': spec}, nontrivial=nontrivial)
+    for vs in layout_variants(strip_layout(spec)):
+        run_oracle(ctx, 'json.roundtrip', {'v': vs})
+
+
+def run_params_oracles(ctx, ps, nontrivial=True):
+    run_oracle(ctx, 'SimulationParameters.roundtrip', ps, nontrivial=nontrivial)
+    for vp in variants_ps(strip_ps(ps)):
+        run_oracle(ctx, 'SimulationParameters.roundtrip', vp)
 
 
 def run_oracle(ctx, call, case, key=None, nontrivial=True):
@@ -1434,7 +1528,21 @@ class Batch:
         self.lines, self.todo = [], []
 
 
-def corr_value(ctx, b, spec):
+def iter_arrays(ps):
+    def walk(sp):
+        if sp[0] in ('list', 'set'):
+            for x in sp[1]:
+                yield from walk(x)
+        elif sp[0] == 'array':
+            yield sp
+    for _, v in ps['params']:
+        yield from walk(v)
+
+
+def corr_value(ctx, b, spec, variants=True):
+    if variants:
+        for vs in layout_variants(strip_layout(spec)):
+            corr_value(ctx, b, vs, variants=False)
     S = _impl()[3]
     v = build(spec)
     try:
@@ -1457,7 +1565,10 @@ def corr_value(ctx, b, spec):
         ctx.branch('feature:' + f)
 
 
-def corr_params(ctx, b, ps):
+def corr_params(ctx, b, ps, variants=True):
+    if variants:
+        for vp in variants_ps(strip_ps(ps)):
+            corr_params(ctx, b, vp, variants=False)
     P = _impl()[0]
     p = build_params(ps)
     try:
@@ -1474,6 +1585,8 @@ def corr_params(ctx, b, ps):
           safe(lambda: 'ok ' + params_state(P.from_json(p.to_json()))), prefix='wf=1', nontrivial=nontriv,
           key=('params', key))
     ctx.branch('params:depth=%d' % depth)
+    if any(manifesting(x) for x in iter_arrays(ps)):
+        ctx.branch('params:array-non-C-memory-order')
     if ps['unpack']:
         ctx.branch('params:unpacked-marks')
     if ps.get('child') is not None:
@@ -1657,6 +1770,10 @@ CORPUS_VALUES = [
     ['array', 'float32', [2], [fhex(1.5), fhex(2.5)]], ['array', 'int8', [2, 2], [1, 2, 3, 4]],
     ['array', 'bool', [2], [True, False]], ['array', 'uint64', [1], [2 ** 64 - 1]], ['array', 'float64', [0], []],
     ['array', 'float64', [1, 1, 1], [fhex(0.1)]], ['array', 'float64', [3, 0, 2], []],
+    ['array', 'int64', [2, 3], [1, 2, 3, 4, 5, 6], 'F'], ['array', 'float64', [3, 2], [fhex(x) for x in (1, 2, 3, 4, 5, 6)], 'T'],
+    ['array', 'int16', [2, 2, 2], [1, 2, 3, 4, 5, 6, 7, 8], 'strided'], ['array', 'int64', [2, 3], [1, 2, 3, 4, 5, 6], 'reversed'],
+    ['array', 'int64', [3, 2], [1, 2, 1, 2, 1, 2], 'broadcast'],
+    ['list', [['array', 'uint8', [2, 2], [1, 2, 3, 4], 'F'], ['int', 3]]],
     ['set', []], ['set', [['int', 1], ['str', 'a'], ['none']]], ['set', [['npint', 'int16', 3], ['npfloat', 'float32', fhex(0.5)]]],
     ['list', []], ['list', [['list', []], ['list', [['int', 1], ['list', [['int', 2]]]]]]],
     ['list', [['npfloat', 'float32', fhex(1.5)], ['set', [['npint', 'int16', 3]]]]],
@@ -1677,6 +1794,9 @@ def corpus_results():
     out.append({'name': 'c', 'type': 3, 'acc': False, 'choice_num': 2, 'history': [[['int', 1], None]] * 3})
     out.append({'name': 's', 'type': 0, 'acc': True, 'choice_num': None,
                 'history': [[['npfloat', 'float32', fhex(0.5)], None], [['npfloat', 'float32', fhex(0.25)], None]]})
+    out.append({'name': 'h', 'type': 2, 'acc': True, 'choice_num': None,
+                'history': [[['array', 'float64', [2, 3], [fhex(x) for x in (1, 2, 3, 4, 5, 6)], 'F'], None],
+                            [['array', 'int64', [3, 2], [1, 2, 3, 4, 5, 6], 'T'], None]]})
     out.append({'name': 'm', 'type': 2, 'acc': True, 'choice_num': None,
                 'history': [[['set', [['int', 1], ['str', 'a']]], None], [['str', 'some string'], None],
                             [['list', [['npint', 'int16', 2]]], None]]})
@@ -1695,6 +1815,15 @@ def corpus_params():
         {'params': [['a', ['list', [['npint', 'int8', 1], ['npfloat', 'float16', fhex(0.5)]]]], ['b', ['list', [['int', 1], ['int', 2]]]]],
          'unpack': ['a'], 'child': 0, 'grandchild': ['b', 1]},
         {'params': [['rep_max', ['int', 5]], ['x', ['npbool', True]]], 'unpack': [], 'child': None},
+        # memory layouts: the value of an array is its logical content
+        {'params': [['H', ['array', 'float64', [2, 3], [fhex(x) for x in (1, 2, 3, 4, 5, 6)], 'T']]], 'unpack': [],
+         'child': None, 'via_add': True},
+        {'params': [['H', ['array', 'int64', [2, 3], [1, 2, 3, 4, 5, 6], 'F']], ['snr', ['list', [['int', 0], ['int', 5]]]]],
+         'unpack': ['snr'], 'child': 1, 'via_add': False},
+        {'params': [['H', ['array', 'int32', [3, 2], [1, 2, 3, 4, 5, 6], 'reversed']]], 'unpack': ['H'], 'child': 2,
+         'via_add': True},
+        {'params': [['H', ['array', 'int8', [2, 2, 2], [1, 2, 3, 4, 5, 6, 7, 8], 'strided']]], 'unpack': [], 'child': None,
+         'via_add': True},
     ]
 
 
@@ -1773,7 +1902,8 @@ def small_scope(ctx, b):
             spec = ['array', dt, shape, flat]
             corr_value(ctx, b, spec)
             corr_params(ctx, b, {'params': [['H', spec]], 'unpack': [], 'child': None})
-            run_oracle(ctx, 'json.roundtrip', {'v': spec})
+            run_value_oracles(ctx, spec)
+            run_params_oracles(ctx, {'params': [['H', spec]], 'unpack': [], 'child': None})
             run_oracle(ctx, 'SimulationResults.filename',
                        {'template': 'res_{snr}.json', 'params': [['snr', ['int', 5]], ['H', spec]], 'field': 'snr',
                         'other': ['int', 6]})
@@ -1812,21 +1942,21 @@ def oracle_pass(ctx, scale=1.0):
                 run_oracle(ctx, rec['call'], rec['case'], key=('corpus', fn))
                 ctx.branch('corpus')
     for spec in CORPUS_VALUES:
-        run_oracle(ctx, 'json.roundtrip', {'v': spec})
+        run_value_oracles(ctx, spec)
     for _ in range(k * 2):
         spec = gen_value(rng, 3)
         if 'npfloat:longdouble' in spec_features(spec):
             continue
-        run_oracle(ctx, 'json.roundtrip', {'v': spec}, nontrivial=spec[0] not in ('none', 'bool', 'int', 'float', 'str'))
+        run_value_oracles(ctx, spec, nontrivial=spec[0] not in ('none', 'bool', 'int', 'float', 'str'))
     if _longdouble_is_wider():
         run_oracle(ctx, 'json.roundtrip.longdouble', {'v': ['npfloat', 'longdouble', '0.1']})
     for ps in corpus_params():
-        run_oracle(ctx, 'SimulationParameters.roundtrip', ps)
+        run_params_oracles(ctx, ps)
     for _ in range(k):
         ps = gen_params(rng)
         if 'npfloat:longdouble' in _params_features(ps):
             continue
-        run_oracle(ctx, 'SimulationParameters.roundtrip', ps, nontrivial=len(ps['params']) > 0)
+        run_params_oracles(ctx, ps, nontrivial=len(ps['params']) > 0)
     run_oracle(ctx, 'SimulationParameters.roundtrip.reserved-name', {'name': '_is_set', 'v': ['int', 3]})
     run_oracle(ctx, 'SimulationParameters.roundtrip.reserved-name', {'name': '_is_numpy_array', 'v': ['bool', True]})
     for rs in corpus_results():
@@ -1872,7 +2002,10 @@ def check(ctx):
                 'files with parameter templates. non-trivial = distinct spec that is a container / numpy scalar / '
                 'has >=1 parameter / >=1 update')
     core.prove(ctx, MODULE, generated=[], drivers=[DRIVER], scratch=ctx.scratch)
-    ctx.required_branches = ['feature:npfloat:float32', 'feature:npint:int16', 'feature:array:zero-size-ndim>=2',
+    ctx.required_branches = ['feature:array:non-C-memory-order', 'feature:array:layout=F', 'feature:array:layout=T',
+                             'feature:array:layout=strided', 'feature:array:layout=reversed',
+                             'feature:array:layout=broadcast', 'params:array-non-C-memory-order',
+                             'feature:npfloat:float32', 'feature:npint:int16', 'feature:array:zero-size-ndim>=2',
                              'feature:set', 'params:child', 'params:unpacked-marks', 'params:depth=2',
                              'result:SUMTYPE', 'result:RATIOTYPE', 'result:MISCTYPE', 'result:CHOICETYPE',
                              'result:never-updated', 'result:accumulate', 'sim:current_rep-set', 'file:.json',
